@@ -142,7 +142,11 @@ theorem nodup_subset_length_le {l1 l2 : List Ent} (hn : l1.Nodup) (hsub : ∀ x 
 
 theorem sorted_nodup {l : List Ent} (hs : SortedEnts l) : l.Nodup := by
   rw [sorted_iff] at hs
-  exact hs.imp (fun hab heq => elt_irrefl _ (heq ▸ hab))
+  unfold List.Nodup
+  refine hs.imp ?_
+  intro a b hab heq
+  subst heq
+  exact elt_irrefl _ hab
 
 end LL
 
